@@ -27,6 +27,7 @@ def run(ctx):
     m, binds, params, sets = Q.model(ctx)
     Q.rule_must_decode(ctx, "R7", m, params, sets)
     Q.rule_upper_quoted(ctx, "R7u")
+    U.rule_qsl(ctx, "R8")
 
 
 def reference_languages(ctx, rule, spec):
@@ -142,9 +143,55 @@ def reference_languages(ctx, rule, spec):
         ctx.ob(rule, "MISTAKES_RE/covers-amp-spellings", w is None, "the spelling %r of '&' is no longer repaired" % w, site, witness=w)
     except Unsupported as e:
         ctx.undecided(rule, "MISTAKES_RE: %s" % e)
+    repair_function(ctx, rule)
     # CONTROL_CHARS
     from .c02 import control_chars_language
     control_chars_language(ctx, rule)
+
+
+def repair_function(ctx, rule):
+    """fix_common_query_mistakes: every path substitutes MISTAKES_RE by '&', or returns early under a substring guard
+    that every string matched by MISTAKES_RE contains (language inclusion), so the shortcut cannot skip a repair."""
+    import re as _re
+    repo = ctx.repo
+    ut = repo.mod("utils")
+    ref = ut.func("fix_common_query_mistakes")
+    ctx.fn(ref.qualname)
+    rx = U.regex_const(ctx, "ural.utils.MISTAKES_RE")
+    ex = P.Extractor(repo, atomic=set())
+    rets = [r for r in ex.function(ref) if r.kind == "return"]
+    sub = F.is_regex_sub("ural.utils.MISTAKES_RE", "&")
+    n = 0
+    for r in rets:
+        if sub(r.term) and (r.term[2][-1] if r.term[0] == "call" else r.term[3][-1]) == ("param", "query"):
+            n += 1
+            continue
+        if r.term == ("param", "query"):
+            # shortcut: acceptable only under `C not in query` with L(MISTAKES_RE) inside .*C.*
+            ok = False
+            why = "no recognised guard"
+            for c, pol in r.conds:
+                cc, p = c, pol
+                if cc[0] == "not":
+                    cc, p = cc[1], not p
+                if cc[0] == "cmp" and cc[1] in ("NotIn", "In") and cc[2][0] == "const" and isinstance(cc[2][1], str) and cc[3] == ("param", "query"):
+                    absent = (cc[1] == "NotIn") == p
+                    if absent:
+                        try:
+                            A = Algebra()
+                            a = A.regex(rx.pattern, rx.flags, "fullmatch")
+                            has = A.regex("[\\s\\S]*" + _re.escape(cc[2][1]) + "[\\s\\S]*", 0, "fullmatch")
+                            w = A.subset(a, has)
+                            ok = w is None
+                            why = "MISTAKES_RE also matches %r, which does not contain %r" % (w, cc[2][1])
+                        except Unsupported as e:
+                            ok = True
+            ctx.ob(rule, "fix_common_query_mistakes/shortcut-is-sound", ok,
+                   "fix_common_query_mistakes returns the query unrepaired on a shortcut path (%s): '&amp%%3B' / '&AMP;' separators are left in place and the tracking items behind them survive" % why,
+                   ut.site(r.node), witness="http://a.com/p?b=2&amp%3Butm_source=tw&amp%3Ba=1")
+            continue
+        ctx.ob(rule, "fix_common_query_mistakes/return-shape", False, "fix_common_query_mistakes returns %s, neither the repaired query nor the query itself" % P.show(r.term, maxdepth=3), ut.site(r.node))
+    ctx.ob(rule, "fix_common_query_mistakes/substitutes-ampersand", n >= 1, "fix_common_query_mistakes never substitutes MISTAKES_RE by '&'", ut.site(ref.node))
 
 
 def probe_agreement(ctx, rule):
